@@ -121,7 +121,8 @@ def first_result_text(f, call: ast.Call) -> Optional[str]:
 
 def check_transition_fn(ctx, numbase=2):
     P = ctx.P
-    f = P.fn(RS, "PipelineRuntimeStatus.transition")
+    from ..util import inline_helpers, private_closure
+    f = inline_helpers(P, P.fn(RS, "PipelineRuntimeStatus.transition"))
     ctx.touch(f)
     params = f.params()
     ctx.need(len(params) >= 3, "PipelineRuntimeStatus.transition must take (self, operator, new_state)")
@@ -155,7 +156,10 @@ def check_transition_fn(ctx, numbase=2):
                 self_attr(n.func.value, "operator_states") or self_attr(n.func.value, "state_counts")):
             stores.append((n, n.func.value))
     stores.sort(key=lambda x: x[0].lineno)
-    ctx.count_min("stores in transition()", len(stores), 1)
+    if not stores:
+        ctx.ob(numbase, "K3", "transition() updates the operator's state and the per-state counts", False, f, f.node, construct="state update in transition()",
+               detail="no store to operator_states / state_counts found in transition() (or the private helpers only it calls)")
+        return
     goal = ("truth", guard_text, True) if guard_text else None
     for n, t in stores:
         st = n
@@ -225,7 +229,8 @@ def check_transition_fn(ctx, numbase=2):
 
 def check_writers(ctx, num=3):
     P = ctx.P
-    allowed = {f"{RS}::PipelineRuntimeStatus.__init__", f"{RS}::PipelineRuntimeStatus.transition"}
+    from ..util import private_closure
+    allowed = {f"{RS}::PipelineRuntimeStatus.__init__"} | {f"{RS}::{q}" for q in private_closure(P, P.fn(RS, "PipelineRuntimeStatus.transition"))}
     for attr in ("operator_states", "state_counts"):
         ws = attr_writes(P, attr)
         dyn = [w for w in ws if w.how == "dynamic"]
@@ -420,8 +425,43 @@ def _block_of(s: ast.stmt) -> List[ast.stmt]:
     return [s]
 
 
+SITES = {   # target state -> functions allowed to request it (confirmed by reading; the forwarding wrappers carry a computed state)
+    "ASSIGNED": {(AS, "Assignment.__init__")},
+    "RUNNING": {(CT, "Container._tick_generator")},
+    "COMPLETED": {(CT, "Container._tick_generator")},
+    "FAILED": {(CT, "Container.kill")},
+    "SUSPENDING": {(CT, "Container.suspend_container")},
+    "PENDING": {(CT, "Container.suspend_container_tick")},
+}
+
+
+def check_transition_sites(ctx, num=8):
+    """K1: every operator state change is requested at one of the documented sites (same-class private helpers of a site count as the site)."""
+    P = ctx.P
+    from ..util import private_closure
+    allowed = {}
+    for st, sites in SITES.items():
+        allowed[st] = set()
+        for rel, q in sites:
+            try:
+                allowed[st] |= {(rel, x) for x in private_closure(P, P.fn(rel, q))}
+            except AnalysisError:
+                allowed[st].add((rel, q))
+    n = 0
+    for fn_ in P.all_funcs(include_template=True):
+        for c, recv, st in transition_calls(fn_):
+            if st is None:
+                continue
+            n += 1
+            ok = (fn_.mod.rel, fn_.qual) in allowed.get(st, set())
+            ctx.ob(num, "K1", f"operators are moved to {st} only at the documented site ({', '.join(q for _, q in SITES.get(st, []))})", ok, fn_, c,
+                   detail=f"transition({st}) requested in {fn_.mod.rel}::{fn_.qual}")
+    ctx.count_min("transition call sites with a literal target state", n, 1)
+
+
 def run(ctx):
     check_table(ctx)
+    check_transition_sites(ctx, 8)
     from . import c01
     c01.check_check_transition(ctx)      # the table is actually consulted for every request (filed under #1 / #2 of this property)
     check_transition_fn(ctx, 2)
